@@ -29,7 +29,8 @@ def _true() -> bool:
 
 class TState:
     __slots__ = ("tid", "sem", "status", "op", "obj", "enabled", "sig",
-                 "real", "exc", "fake", "aborts", "frame", "done_sem")
+                 "real", "exc", "fake", "aborts", "frame", "done_sem", "timed",
+                 "consec")
 
     def __init__(self, tid: int) -> None:
         self.tid = tid
@@ -45,6 +46,8 @@ class TState:
         self.exc = None
         self.fake = None
         self.aborts = 0
+        self.timed = False  # waiting with a time-out
+        self.consec = 0  # consecutive time-outs of this thread (slow mode)
 
 
 class Carrier:
@@ -78,8 +81,12 @@ class Scheduler:
     def __init__(self, chooser, watched_files=(), watched_mods=(),
                  observe=None, line_points=False, use_cache=True,
                  only_funcs=None, every_switch_costs=False,
-                 workers_first=False, max_points=30000) -> None:
+                 workers_first=False, max_points=30000,
+                 timeouts_first=0) -> None:
         self.chooser = chooser
+        # base schedule "slow partners": a wait with a time-out expires up to
+        # `timeouts_first` times in a row before the thread waited for runs
+        self.timeouts_first = timeouts_first
         self.max_points = max_points
         self.horizon = False
         self.workers_first = workers_first
@@ -168,7 +175,22 @@ class Scheduler:
         return self._local_trace
 
     # -- the scheduling point ---------------------------------------------
-    def point(self, op: str, obj, enabled) -> None:
+    def timed_wait(self, op: str, obj, pred) -> bool:
+        """A wait with a time-out.  Time is not modelled: the wait succeeds
+        when ``pred`` holds at the moment the thread is scheduled; the
+        time-out may expire instead whenever the scheduler says so - at no
+        cost when nothing else can run (time passes), as a deviation
+        otherwise (the threads waited for are slower than the time-out).
+        Returns False when it expired."""
+        self.point(op, obj, pred, timed=True)
+        me = self.me()
+        me.timed = False
+        if pred():
+            me.consec = 0
+            return True
+        return False
+
+    def point(self, op: str, obj, enabled, timed: bool = False) -> None:
         if self.abort:
             me = self.by_ident.get(_rt.get_ident())
             if me is not None:
@@ -181,6 +203,7 @@ class Scheduler:
         me.op = op
         me.obj = obj
         me.enabled = enabled or _true
+        me.timed = timed
         if self.use_cache:
             # signature is computed lazily (only when a state key is needed)
             me.frame = sys._getframe(1)
@@ -212,6 +235,15 @@ class Scheduler:
             for t in threads:
                 if t is not me and t.status != "done" and t.enabled():
                     enabled.append(t)
+        nready = len(enabled)
+        expiring = [t for t in threads
+                    if t.status != "done" and t.timed and not t.enabled()]
+        front = []
+        if expiring:
+            if self.timeouts_first:
+                front = [t for t in expiring if t.consec < self.timeouts_first]
+                expiring = [t for t in expiring if t not in front]
+            enabled = front + enabled + expiring
         if not enabled:
             stuck = [t for t in threads if t.status != "done"]
             self.deadlock = bool(stuck)
@@ -222,13 +254,21 @@ class Scheduler:
             return
         n = len(enabled)
         preempt = 1 if (enabled[0] is me or self.every_switch_costs) else 0
+        if front or nready < n:
+            # an expiring time-out that is not the default costs one
+            # deviation; with time-outs in front (slow partners) letting a
+            # ready thread run instead is the deviation
+            costs = ([1] * len(front) +
+                     [1 if front else preempt] * nready +
+                     [1] * (n - nready - len(front)))
+            costs[0] = 0
+        else:
+            costs = [0] + [preempt] * (n - 1)
         try:
             key = None
             if self.use_cache and self.chooser.beyond_prefix():
                 key = self._state_key(me)
-            idx = self.chooser.choose(n,
-                                      key=key,
-                                      costs=[0] + [preempt] * (n - 1))
+            idx = self.chooser.choose(n, key=key, costs=costs)
         except Pruned:
             self.pruned = True
             self._abort_all(me)
@@ -242,6 +282,8 @@ class Scheduler:
                 raise Abort() from None
             return
         nxt = enabled[idx]
+        if nxt.timed and not nxt.enabled():
+            nxt.consec += 1  # its time-out expires
         self.trace.append(nxt.tid)
         if nxt is me:
             return
@@ -269,7 +311,8 @@ class Scheduler:
                 oid = getattr(t.obj, "_vid", None)
                 if t.sig is None:
                     t.sig = self._stack_sig(t.frame)
-                s = (t.op, oid, t.sig)
+                s = (t.op, oid, t.sig) if not self.timeouts_first else (
+                    t.op, oid, t.sig, t.consec)
             if t.tid == 0:
                 main_sig = s
             else:
@@ -464,7 +507,10 @@ class FakeQueue:
 
     def put(self, item, block: bool = True, timeout=None) -> None:
         s = _sched()
-        if not block or timeout is not None:
+        if block and timeout is not None and timeout > 0:
+            if not s.timed_wait("put_t", self, lambda: not self._full()):
+                raise Full()
+        elif not block or timeout is not None:
             s.point("put_nb", self, None)
             if self._full():
                 raise Full()
@@ -478,8 +524,10 @@ class FakeQueue:
 
     def get(self, block: bool = True, timeout=None):
         s = _sched()
-        if not block or timeout is not None:
-            # a timed get may always time out: model = fails iff empty now
+        if block and timeout is not None and timeout > 0:
+            if not s.timed_wait("get_t", self, lambda: bool(self.queue)):
+                raise Empty()
+        elif not block or timeout is not None:
             s.point("get_nb", self, None)
             if not self.queue:
                 raise Empty()
@@ -531,7 +579,10 @@ class FakeLock:
         if self._reentrant and self._owner is me:
             self._count += 1
             return True
-        if not blocking or (timeout is not None and timeout >= 0):
+        if blocking and timeout is not None and timeout > 0:
+            if not s.timed_wait("acq_t", self, lambda: self._owner is None):
+                return False
+        elif not blocking or (timeout is not None and timeout >= 0):
             s.point("acq_nb", self, None)
             if self._owner is not None:
                 return False
@@ -591,6 +642,8 @@ class FakeEvent:
         self._flag = False
 
     def wait(self, timeout=None) -> bool:
+        if timeout is not None and timeout > 0:
+            return _sched().timed_wait("wait_t", self, lambda: self._flag)
         if timeout is not None:
             _sched().point("wait_nb", self, None)
             return self._flag
@@ -611,7 +664,10 @@ class FakeSemaphore:
 
     def acquire(self, blocking: bool = True, timeout=None) -> bool:
         s = _sched()
-        if not blocking or timeout is not None:
+        if blocking and timeout is not None and timeout > 0:
+            if not s.timed_wait("sacq_t", self, lambda: self._value > 0):
+                return False
+        elif not blocking or timeout is not None:
             s.point("sacq_nb", self, None)
             if self._value <= 0:
                 return False
@@ -657,7 +713,9 @@ class FakeCondition:
         saved = self._lock._count
         self._lock._owner = None
         self._lock._count = 0
-        if timeout is not None:
+        if timeout is not None and timeout > 0:
+            s.timed_wait("cwait_t", self, lambda: token[0])
+        elif timeout is not None:
             s.point("cwait_nb", self, None)
         else:
             s.point("cwait", self, lambda: token[0])
@@ -713,7 +771,9 @@ class FakeThread:
         ts = self._ts
         if ts is None:
             raise RuntimeError("cannot join thread before it is started")
-        if timeout is not None:
+        if timeout is not None and timeout > 0:
+            _sched().timed_wait("join_t", None, lambda: ts.status == "done")
+        elif timeout is not None:
             _sched().point("join_nb", None, None)
         else:
             _sched().point("join", None, lambda: ts.status == "done")
